@@ -86,6 +86,8 @@ type scen struct {
 	// Mixed: the consecutive renders alternate between a coarse lattice (one evaluation batch per layer) and a
 	// fine one (two batches per layer)
 	Mixed bool `json:"alternating_resolutions,omitempty"`
+	// Batch: the (failing) first write uses the batch writer of the format (SaveSTL / SaveSVG / SaveDXF)
+	Batch bool `json:"first_write_by_the_batch_writer,omitempty"`
 }
 
 var work = filepath.Join(vlib.VerifDir, ".work", "c12")
@@ -129,6 +131,8 @@ func (sc scen) body() func() {
 			switch sc.Renderer {
 			case "scripted":
 				r3 = scripted3{sc.Items}
+			case "uniform100":
+				r3, s3 = render.NewMarchingCubesUniform(8), field() // 10 x 10 lattice points per layer: exactly one evaluation batch
 			case "uniform":
 				r3, s3 = render.NewMarchingCubesUniform(1), field()
 				if sc.Mixed && k%2 == 1 {
@@ -146,6 +150,17 @@ func (sc scen) body() func() {
 				r2, s2 = render.NewMarchingSquaresQuadtree(6), field2()
 			case "dc2d":
 				r2, s2 = render.NewDualContouring2D(6), field2()
+			}
+			if sc.Batch {
+				switch sc.Sink {
+				case "stl":
+					render.SaveSTL("out.stl", []*sdf.Triangle3{{{X: 0}, {X: 1}, {Y: 1}}})
+				case "svg":
+					render.SaveSVG("out.svg", "fill:none;stroke:black", []*sdf.Line2{{{X: 0}, {X: 1, Y: 1}}})
+				case "dxf":
+					render.SaveDXF(sc.Path, []*sdf.Line2{{{X: 0}, {X: 1, Y: 1}}})
+				}
+				continue
 			}
 			switch sc.Sink {
 			case "stl":
@@ -312,6 +327,18 @@ func main() {
 				scen{Sink: "dxf", Renderer: "scripted", Items: m, Renders: 1, Plan: none(), Path: path + ".dxf", Workers: 2, Bound: -1, Then: true})
 		}
 	}
+	// the batch writers failing first, then a render
+	scens = append(scens,
+		scen{Sink: "stl", Renderer: "scripted", Items: 3, Renders: 1, Plan: &vos.Plan{Limit: -1, FailCreate: true}, Workers: 2, Bound: -1, Then: true, Batch: true},
+		scen{Sink: "stl", Renderer: "scripted", Items: 3, Renders: 1, Plan: &vos.Plan{Limit: 10}, Workers: 2, Bound: -1, Then: true, Batch: true},
+		scen{Sink: "svg", Renderer: "scripted", Items: 3, Renders: 1, Plan: &vos.Plan{Limit: -1, FailCreate: true}, Workers: 2, Bound: -1, Then: true, Batch: true},
+		scen{Sink: "dxf", Renderer: "scripted", Items: 3, Renders: 1, Plan: none(), Path: filepath.Join(work, "no-such-dir", "z.dxf"), Workers: 2, Bound: -1, Then: true, Batch: true},
+		scen{Sink: "dxf", Renderer: "scripted", Items: 3, Renders: 1, Plan: none(), Path: "/dev/full", Workers: 2, Bound: -1, Then: true, Batch: true})
+	// a lattice whose layers hold exactly one full evaluation batch (100 points), no fault at all
+	for _, w := range []int{1, 2} {
+		scens = append(scens, scen{Sink: "triangles", Renderer: "uniform100", Renders: 1, Plan: none(), Workers: w, Bound: 0},
+			scen{Sink: "stl", Renderer: "uniform100", Renders: 1, Plan: none(), Workers: w, Bound: 0})
+	}
 	// census over alternating resolutions: coarse, fine, coarse, fine, ... (k = 2, 4, 6 renders = 1, 2, 3 periods)
 	for _, w := range []int{1, 2, 3} {
 		for _, k := range []int{2, 4, 6} {
@@ -357,7 +384,7 @@ func main() {
 			}
 			// renderers without a process-wide worker pool start nothing that may outlive the call: a thread
 			// still parked after the call returned is left behind once per render
-			if x.Leaked > 0 && !x.Deadlock && sc.Renderer != "uniform" {
+			if x.Leaked > 0 && !x.Deadlock && sc.Renderer != "uniform" && sc.Renderer != "uniform100" {
 				j.Violation(fmt.Sprintf("To%s|goroutine-left-behind|%s", sc.Sink, pn), fmt.Sprintf("render to %s (%s renderer, %d items, plan %s) returned with %d goroutines still parked: %v", sc.Sink, sc.Renderer, sc.Items, pn, x.Leaked, x.LeakedOps), rep())
 			}
 			for k, v := range vos.Current.Fired {
